@@ -92,8 +92,8 @@ type Node struct {
 	height  map[refmodel.Hash]int32 // hash -> height on the best chain (genesis -> 0)
 	Cap     int                     // max headers per reply
 	// scripting knobs
-	DisconnectAtMsg int              // close the FIRST connection when its n-th message arrives (0 = never)
-	DropAfterHeight int              // close the connection right after sending the first getheaders answer that contains this height (0 = never)
+	DisconnectAtMsg int // close the FIRST connection when its n-th message arrives (0 = never)
+	DropAfterHeight int // close the connection right after sending the first getheaders answer that contains this height (0 = never)
 	droppedAfter    bool
 	StallAfterMsg   int              // on every connection: stop answering getheaders after the n-th message (0 = never)
 	MaxAccepts      int              // stop accepting after n connections (0 = unlimited)
